@@ -36,7 +36,6 @@ import (
 )
 
 const (
-	c13KnownFile = "/verif/.work/C13-known.txt"
 	// c13KnownID: Remove(a) (also the one inside a re-add of a) deletes from the
 	// sorted position list every position Hash(repr(a)+i), i < replicas, without
 	// checking that a owns it; when a owns fewer than `replicas` virtual nodes
@@ -49,15 +48,6 @@ const (
 // c13NoWhiteBox (VERIF_C13_NOWHITEBOX=1) switches the vnode-count rule off; used
 // only to measure which mutants the black-box rules catch on their own.
 var c13NoWhiteBox = os.Getenv("VERIF_C13_NOWHITEBOX") != ""
-
-func init() {
-	// bin/check always points VERIF_KNOWN at /verif/known_findings.txt (which a
-	// harness builder must not edit). Until the finding of this check is
-	// registered there, a private list is honoured when it exists.
-	if _, err := os.Stat(c13KnownFile); err == nil {
-		_ = os.Setenv("VERIF_KNOWN", c13KnownFile)
-	}
-}
 
 // ---------------------------------------------------------------- case data
 
